@@ -1,3 +1,4 @@
+import MetricsVerif.Model.Sched
 /-
 Model of `RecoverableRecorder` / `RecoveryHandle` / `WeakRecorder` (metrics-util/src/recoverable.rs) as a
 step machine over the `Arc` strong count.
@@ -86,11 +87,6 @@ def stepThread (s : Sys) (t : Thread) : Sys × Thread :=
   | .hdrop, .dropHandle :: _ =>
     if s.handle then (release { s with handle := false }, t.advance .dropped) else (s, t.advance .dropped)
   | _, _ => (s, t)
-
-def setAt {α : Type} : List α → Nat → α → List α
-  | [], _, _ => []
-  | _ :: xs, 0, a => a :: xs
-  | x :: xs, n + 1, a => x :: setAt xs n a
 
 def step (s : Sys) (tid : Nat) : Sys :=
   match s.threads[tid]? with
